@@ -78,6 +78,13 @@ func genSoup(t *rapid.T, maxInstr, maxSteps int) soupCase {
 	g8 := gen8()
 	small := rapid.SampledFrom([]uint8{0xFE, 0xFC, 0xF8, 0xF0, 0x00, 0x01, 0x02, 0x04, 0x08, 0xFD, 0xFB})
 	for i := 0; i < n; i++ {
+		if rapid.IntRange(0, 11).Draw(t, "junk") == 0 {
+			// a prefix in front of a byte it may have no business with (DD 00, FD DD, ED FF, DD CB d 00 ...): whatever the
+			// tree makes of it - the model is re-synchronised after a Step it cannot judge - must not change how the
+			// instructions after it behave
+			c.Code = append(c.Code, int(rapid.SampledFrom([]uint8{0xDD, 0xFD, 0xED, 0xDD, 0xFD}).Draw(t, "junkPrefix")), int(g8.Draw(t, "junkByte")))
+			continue
+		}
 		var ei int
 		if rapid.IntRange(0, 3).Draw(t, "fav") == 0 {
 			ei = rapid.SampledFrom(soupFavourites).Draw(t, "enc")
